@@ -1,7 +1,7 @@
 (* C10 — per-family tree profiles are correct and add up to the whole-dataset profile. *)
 From Coq Require Import List Arith Bool String.
-From PyHam Require Import Tax Ortho Mapper Preds Profile.
-From PyHam.proofs Require Import PartitionFacts FamilyProfileFacts AdditiveFacts.
+From PyHam Require Import Tax Ortho Loader Mapper Preds Profile Whole.
+From PyHam.proofs Require Import PartitionFacts FamilyProfileFacts AdditiveFacts WholeFacts.
 Import ListNotations.
 
 (* at every node below the family's taxon: nbr_genes is the number of family members living there,
@@ -30,7 +30,7 @@ Print Assumptions c10_root.
    retained / duplicated / lost / duplication / events counts of its per-family profile.  Gene counts add
    up as well.  Hypothesis: wfb (C02), which every consistent load satisfies. *)
 Theorem c10_additive : forall t fo a u,
-  wfb t fo = true ->
+  wfbc t fo = true ->
   full_node fo (a :: u) =
     (a :: u, list_sum (map (fun r => List.length (members_at r (a :: u))) (fo_roots fo)),
      Some (feat_sum (map (fun r => fam_feat r (a :: u)) (fo_roots fo)))).
@@ -40,7 +40,7 @@ Print Assumptions c10_additive.
 (* only the families whose per-family profile covers the node (the node lies in the clade of the
    family's taxon) contribute: the others add zero *)
 Theorem c10_additive_covering : forall t fo a u,
-  wfb t fo = true ->
+  wfbc t fo = true ->
   full_node fo (a :: u) =
     (a :: u, list_sum (map (fun r => List.length (members_at r (a :: u))) (fo_roots fo)),
      Some (feat_sum (map (fun r => fam_feat r (a :: u)) (filter (covers (a :: u)) (fo_roots fo))))).
@@ -52,6 +52,21 @@ Theorem c10_additive_genes : forall fo v,
   List.length (genome_refs fo v) = list_sum (map (fun r => List.length (members_at r v)) (fo_roots fo)).
 Proof. exact nbr_genes_additive. Qed.
 Print Assumptions c10_additive_genes.
+
+(* end to end: for every consistent input the per-family profiles of the loaded forest add up to its
+   whole-dataset profile on every branch *)
+Theorem c10_every_consistent_input : forall t d hs,
+  consistent t d hs ->
+  exists l, load t d = Ok l /\ forall a u,
+    let fo := forest_of l in
+    full_node fo (a :: u) =
+      (a :: u, list_sum (map (fun r => List.length (members_at r (a :: u))) (fo_roots fo)),
+       Some (feat_sum (map (fun r => fam_feat r (a :: u)) (fo_roots fo)))).
+Proof.
+  intros t d hs Hc. destruct (consistent_forest t d hs Hc) as (l & El & Hw & _). exists l. split; [exact El|].
+  intros a u fo. exact (additive t (forest_of l) a u Hw).
+Qed.
+Print Assumptions c10_every_consistent_input.
 
 Definition m0 : hmeta := {| m_id := None; m_og := None; m_props := []; m_scores := []; m_synth := false |}.
 Definition fam : hog :=
@@ -66,7 +81,7 @@ Proof. vm_compute. split; reflexivity. Qed.
 Definition tr10 : stree := SNode "R" [SNode "X" []; SNode "M" [SNode "E" [SNode "H" []; SNode "P" []]; SNode "C" []]].
 Definition fo10 : forest := {| fo_tops := [fam]; fo_singles := [HGene "x9" [0]] |}.
 Example c10_additive_nonvacuous :
-  wfb tr10 fo10 = true /\
+  wfbc tr10 fo10 = true /\
   full_node fo10 [0; 1] = ([0; 1], 2, Some (feat_sum (map (fun r => fam_feat r [0; 1]) (fo_roots fo10)))) /\
   full_node fo10 [0] = ([0], 1, Some (feat_sum (map (fun r => fam_feat r [0]) (fo_roots fo10)))).
 Proof. vm_compute. repeat split. Qed.
